@@ -22,7 +22,8 @@ import (
 //     shorter, globbed), for registrations AND for update paths, so that twins
 //     are registered side by side and updates still hit odd registrations;
 //   - sizes: lists of 20-100 paths (with repeats), notifications of 5-40
-//     entries, paths of up to 10 elements, up to 12 clients at one path.
+//     entries (half of those: 63-300 entries), paths of up to 10
+//     elements, up to 12 clients at one path.
 
 var (
 	queryAlpha  = []string{"a", "a", "b", "b", Glob}
@@ -221,6 +222,9 @@ func (c cfg) notif(t *rapid.T, maxElems int) *Notif {
 		k = 1
 	} else if c.level > 0 && one(t, 12, "many-entries") {
 		k = rapid.IntRange(5, 40).Draw(t, "many")
+		if one(t, 2, "sized") { // entry counts around the capacity steps an implementation might have (the size part does this systematically)
+			k = rapid.SampledFrom(sizeSteps).Draw(t, "size")
+		}
 		many = true
 		kinds = rapid.SampledFrom([]string{"mixed", "updates", "deletes"}).Draw(t, "many-kinds")
 	}
